@@ -915,6 +915,18 @@ def backend_checks(ld, r, tier, prop):
                             if got != exp:
                                 fails.append(f'backend {be} {name} num_workers={w} buffer_size={b} n={n} catch={catch} function table {t}: '
                                              f'consumer got {got[0]} then {got[1]}; sequential semantics give {exp[0]} then {exp[1]}')
+                        if prop == 'C04' and catch:
+                            # "report the same length": the sequential pipeline ds.catch(..) has no len (how many examples get dropped is
+                            # unknown before they are evaluated); prefetch with catching must not report one either
+                            runs += 1
+                            for ww in ((w, 1) if thread else (w,)):
+                                try:
+                                    ln = len(src.map(fn).prefetch(ww, b, backend=be, catch_filter_exception=catch))
+                                    fails.append(f'backend {be} num_workers={ww} buffer_size={b} catch={catch}: len() of a catching prefetch returns {ln}; the sequential catch() has no length and {len(exp[0])} examples are delivered')
+                                except TypeError:
+                                    pass
+                                except Exception as e:
+                                    fails.append(f'backend {be} num_workers={ww} catch={catch}: len() raised {type(e).__name__}')
                         if prop == 'C04' and catch is None:
                             runs += 1
                             try:
@@ -1111,7 +1123,7 @@ def dataset_level_readahead(ld, r, tier):
     with warnings.catch_warnings():
         warnings.simplefilter('ignore')
         for (w, b) in cfgs:
-            for kind in ('parmap', 'parmap_items', 'batch_map', 'prefetch', 'prefetch_items', 'prefetch1', 'prefetch1_items'):
+            for kind in ('parmap', 'parmap_items', 'batch_map', 'prefetch', 'prefetch_items', 'prefetch1', 'prefetch1_items', 'prefetch_catch', 'prefetch_catch_cls', 'prefetch1_catch'):
                 started = []
 
                 def fn(x):
@@ -1129,6 +1141,9 @@ def dataset_level_readahead(ld, r, tier):
                     if w > 1:
                         continue            # multi-worker prefetch refuses items() loudly
                     it = iter(src.map(fn).prefetch(w, b).items())
+                elif kind == 'prefetch_catch': it = iter(src.map(fn).prefetch(w, b, catch_filter_exception=True))
+                elif kind == 'prefetch_catch_cls': it = iter(src.map(fn).prefetch(w, b, backend='thread', catch_filter_exception=(KeyError, ld.FilterException)))
+                elif kind == 'prefetch1_catch': it = iter(src.map(fn).prefetch(1, b, catch_filter_exception=True))
                 elif kind == 'prefetch1': it = iter(src.map(fn).prefetch(1, b))
                 else: it = iter(src.map(fn).prefetch(1, b).items())
                 runs += 1
@@ -1140,7 +1155,7 @@ def dataset_level_readahead(ld, r, tier):
                         worst = max(worst, len(started) - k * per)
                 finally:
                     it.close()
-                bound = (b + 2) if kind.startswith('prefetch1') or (kind.startswith('prefetch') and w == 1) else b * per
+                bound = (b + 2) if kind.startswith('prefetch1') or (kind.startswith('prefetch') and w == 1 and kind != 'prefetch_catch_cls') else b * per
                 if worst > bound:
                     fails.append(f'{kind} num_workers={w} buffer_size={b}: {worst} function applications ahead of the consumer (bound {bound})')
         # buffer sizes outside the documented range (0, negative, smaller than the worker count): either refused loudly or
